@@ -1166,6 +1166,15 @@ func (c *control) dirR(colon, at bool, params []any) {
 		digits []byte
 		words  []string
 	)
+	if 0 < len(params) {
+		// ~radix,mincol,padchar,commachar,comma-intervalR
+		radix := c.getIntParam(0, params, 10, true)
+		if radix < 2 || 36 < radix {
+			c.invalidDirParam(c.str, c.pos)
+		}
+		c.dirInt(colon, at, params[1:], radix)
+		return
+	}
 	arg := c.args[c.argPos]
 	c.argPos++
 	switch ta := arg.(type) {
